@@ -138,21 +138,33 @@ type Exec struct {
 
 // Config parametrises one execution.
 type Config struct {
-	Prefix   []int
-	MaxSteps int
-	Horizon  time.Duration // virtual-time horizon (0 = 1h)
-	Trace    bool
-	FP       bool
-	Go123    bool // channel-timer semantics of go1.23+ (Stop/Reset discard a pending tick)
-	RandMenu func(n int64) []int64
-	RandLog  *[]int64 // every drawn value is appended here
-	NoTick   bool     // the clock does not advance on reads (sequential harnesses that merge states)
-	YieldOnRelease bool // a Mutex/RWMutex unlock is followed by a scheduling point (code that touches shared state right after unlocking)
-	Strict   bool     // every departure from the default scheduling decision costs 1 (also when the running thread blocked)
-	Sites    bool
+	Prefix         []int
+	MaxSteps       int
+	Horizon        time.Duration // virtual-time horizon (0 = 1h)
+	Trace          bool
+	FP             bool
+	Go123          bool // channel-timer semantics of go1.23+ (Stop/Reset discard a pending tick)
+	RandMenu       func(n int64) []int64
+	RandLog        *[]int64 // every drawn value is appended here
+	NoTick         bool     // the clock does not advance on reads (sequential harnesses that merge states)
+	YieldOnRelease bool     // a Mutex/RWMutex unlock is followed by a scheduling point (code that touches shared state right after unlocking)
+	Strict         bool     // every departure from the default scheduling decision costs 1 (also when the running thread blocked)
+	Sites          bool
+}
+
+// randKey: the global pseudo-random generator is a deterministic function of (seed, position): seeding it
+// again with a value used before replays the draws made after the first seeding.
+type randKey struct{ seed, idx, n int64 }
+
+type randMemoEntry struct {
+	k randKey
+	v int64
 }
 
 type run struct {
+	randSeed int64
+	randIdx  int64
+	randMemo []randMemoEntry // a slice, not a map: runtime map accesses are seen by the race detector even from //go:norace code
 	cfg      Config
 	threads  []*Thread // every thread ever created (reports)
 	active   []*Thread // threads that have not finished (scanned by the scheduler)
@@ -237,7 +249,7 @@ func Run(cfg Config, body func()) *Exec {
 	if rr != nil {
 		fatal("nested Run")
 	}
-	r := &run{cfg: cfg, chans: map[unsafe.Pointer]*chanState{}}
+	r := &run{cfg: cfg, chans: map[unsafe.Pointer]*chanState{}, randSeed: -1 << 63}
 	addrCells = nil
 	timerIDs = 0
 	r.schedG = newGate()
@@ -784,10 +796,31 @@ func RandChoice(n int64) int64 {
 	if len(menu) == 0 {
 		return 0
 	}
+	key := randKey{r.randSeed, r.randIdx, n}
+	r.randIdx++
+	v, ok := int64(0), false
+	for i := range r.randMemo {
+		if r.randMemo[i].k == key {
+			v, ok = r.randMemo[i].v, true
+			break
+		}
+	}
+	if ok {
+		// the generator was re-seeded with a value used before: same position, same draw
+		t.hb = mix(t.hb, uint64(v), 0xD1CF)
+		if r.cfg.RandLog != nil {
+			*r.cfg.RandLog = append(*r.cfg.RandLog, v)
+		}
+		if r.cfg.Trace {
+			r.tracef("T%d(%s) rand(%d)=%d (replayed: seed %d position %d)", t.ID, t.Name, n, v, key.seed, key.idx)
+		}
+		return v
+	}
 	k := 0
 	if len(menu) > 1 {
 		k = r.choose(len(menu), nil, true, 0)
 	}
+	r.randMemo = append(r.randMemo, randMemoEntry{key, menu[k]})
 	t.hb = mix(t.hb, uint64(menu[k]), 0xD1CE)
 	if r.cfg.RandLog != nil {
 		*r.cfg.RandLog = append(*r.cfg.RandLog, menu[k])
@@ -797,6 +830,16 @@ func RandChoice(n int64) int64 {
 		r.thashAdd(uint64(menu[k]) + 1977)
 	}
 	return menu[k]
+}
+
+// RandSeed models math/rand.Seed for the global generator (see randKey).
+//
+//go:norace
+func RandSeed(seed int64) {
+	if t := enter(false); t == nil {
+		return
+	}
+	rr.randSeed, rr.randIdx = seed, 0
 }
 
 // Tracef adds a harness line to the trace (replay mode).
